@@ -118,7 +118,7 @@ def cases(tier):
         for b in ('parser', 'cell'):
             yield ['formula', [p[0], p[1], p[2]], b]
     for kind in VOL:
-        for b in ('dict', 'file', 'deepcopy', 'json', 'compile-up', 'compile-down', 'compile-unrelated', 'array', 'name'):
+        for b in ('dict', 'file', 'deepcopy', 'json', 'compile-up', 'compile-down', 'compile-unrelated', 'array', 'name', 'vname', 'vname-file', 'vname-json'):
             yield ['workbook', kind, b]
     for i in range(len(RB_ARGS)):
         for b in ('parser', 'cell'):
@@ -234,15 +234,24 @@ def run_workbook(case):
         d = dict(d)
         d["'[b.xlsx]'!VNAME"] = '=%sA1' % P
         d[P + 'C1'] = "='[b.xlsx]'!VNAME*2"
+    if builder.startswith('vname'):
+        # the volatile call lives in a defined name (no cell reference inside the name); A1 merely shows it
+        d = dict(d)
+        d["'[b.xlsx]'!VOLNAME"] = '=' + VOL[kind]
+        d[P + 'A1'] = "='[b.xlsx]'!VOLNAME"
     A1, B1, C1, D1, K1, K2, E1, F1 = (P + c for c in ('A1', 'B1', 'C1', 'D1', 'K1', 'K2', 'E1', 'F1'))
     try:
-        if builder == 'file':
+        if builder in ('file', 'vname-file'):
             import openpyxl
             wb = openpyxl.Workbook()
             ws = wb.active
             ws.title = 'S'
+            from openpyxl.workbook.defined_name import DefinedName
             for k, v in d.items():
-                ws[k[len(P):]] = v.replace(P, '') if isinstance(v, str) else v
+                if not k.startswith(P):
+                    wb.defined_names[k.split('!')[1]] = DefinedName(k.split('!')[1], attr_text=v[1:])
+                    continue
+                ws[k[len(P):]] = v.replace(P, '').replace("'[b.xlsx]'!", '') if isinstance(v, str) else v
             with Scratch() as tmp:
                 wb.save(os.path.join(tmp, 'b.xlsx'))
                 m = formulas.ExcelModel().loads(os.path.join(tmp, 'b.xlsx')).finish()
@@ -251,7 +260,7 @@ def run_workbook(case):
         if builder == 'deepcopy':
             m.calculate()
             m = copy.deepcopy(m)
-        if builder == 'json':
+        if builder in ('json', 'vname-json'):
             m = formulas.ExcelModel().from_dict(json.loads(json.dumps(m.to_dict())))
         if builder == 'compile-up':           # volatile upstream of the outputs, input unrelated constant
             f = m.compile([K1], [A1, B1, C1, D1])
